@@ -75,9 +75,12 @@ def make_plain():
     return h, conn, tr
 
 
-def make_noise(psk_b64: str, expected_name):
+def make_noise(psk_b64: str, expected_name, eph: int = 0):
     from aioesphomeapi._frame_helper.noise import APINoiseFrameHelper
 
+    from . import noise_ref
+
+    noise_ref.reset_ephemerals(eph)
     loop()
     conn = StubConnection()
     h = APINoiseFrameHelper(
